@@ -17,6 +17,8 @@ mod c10;
 mod c11;
 mod c12;
 mod c13;
+mod c14;
+mod c15;
 mod c16;
 mod c17;
 mod c19;
@@ -39,7 +41,7 @@ mod wire;
 use engine::{Check, Tier};
 
 fn registry() -> Vec<&'static dyn Check> {
-    vec![&c02::C02, &c03::C03, &c04::C04, &c05::C05, &c06::C06, &c07::C07, &c08::C08, &c09::C09, &c10::C10, &c11::C11, &c12::C12, &c13::C13, &c16::C16, &c17::C17, &c19::C19, &c20::C20]
+    vec![&c02::C02, &c03::C03, &c04::C04, &c05::C05, &c06::C06, &c07::C07, &c08::C08, &c09::C09, &c10::C10, &c11::C11, &c12::C12, &c13::C13, &c14::C14, &c15::C15, &c16::C16, &c17::C17, &c19::C19, &c20::C20]
 }
 
 fn find(id: &str) -> &'static dyn Check {
